@@ -7,7 +7,8 @@
      * capture_stream (rip-tools builtins/shell.rs:155): preview buffer, spill hand-over, capped tail,
        id = H(stored bytes).
    No proofs here (Proofs/CaptureProofs.v). *)
-From RipV Require Import Base.Prelude Model.TaskLifecycle.
+From RipV Require Import Base.Prelude.
+From RipV Require Export Model.TaskLifecycle.
 
 Definition bytes := list N.
 
